@@ -2,9 +2,11 @@ package single
 
 import (
 	"context"
-	"encoding/hex"
 	"errors"
 	"fmt"
+	"sort"
+	"strconv"
+	"strings"
 	"sync"
 
 	ds "github.com/ipfs/go-datastore"
@@ -27,7 +29,9 @@ func newPrefixKV(kvStore ds.Batching, prefix string) ds.Batching {
 // BatchQueue implements a persistent queue for transaction batches
 type BatchQueue struct {
 	queue        []coresequencer.Batch
-	maxQueueSize int // maximum number of batches allowed in queue (0 = unlimited)
+	keys         []string // keys[i] is the datastore key of queue[i]
+	nextSeq      uint64   // sequence number of the next accepted batch
+	maxQueueSize int      // maximum number of batches allowed in queue (0 = unlimited)
 	mu           sync.Mutex
 	db           ds.Batching
 }
@@ -53,11 +57,9 @@ func (bq *BatchQueue) AddBatch(ctx context.Context, batch coresequencer.Batch) e
 		return ErrQueueFull
 	}
 
-	hash, err := batch.Hash()
-	if err != nil {
-		return err
-	}
-	key := hex.EncodeToString(hash)
+	// The key is the acceptance sequence number: equal batches get distinct records and
+	// Load can restore the acceptance order.
+	key := seqKey(bq.nextSeq)
 
 	pbBatch := &pb.Batch{
 		Txs: batch.Transactions,
@@ -75,6 +77,8 @@ func (bq *BatchQueue) AddBatch(ctx context.Context, batch coresequencer.Batch) e
 
 	// Then add to in-memory queue
 	bq.queue = append(bq.queue, batch)
+	bq.keys = append(bq.keys, key)
+	bq.nextSeq++
 
 	return nil
 }
@@ -89,16 +93,12 @@ func (bq *BatchQueue) Next(ctx context.Context) (*coresequencer.Batch, error) {
 	}
 
 	batch := bq.queue[0]
+	key := bq.keys[0]
 	bq.queue = bq.queue[1:]
-
-	hash, err := batch.Hash()
-	if err != nil {
-		return &coresequencer.Batch{Transactions: nil}, err
-	}
-	key := hex.EncodeToString(hash)
+	bq.keys = bq.keys[1:]
 
 	// Delete the batch from the WAL since it's been processed
-	err = bq.db.Delete(ctx, ds.NewKey(key))
+	err := bq.db.Delete(ctx, ds.NewKey(key))
 	if err != nil {
 		// Log the error but continue
 		fmt.Printf("Error deleting processed batch: %v\n", err)
@@ -114,6 +114,15 @@ func (bq *BatchQueue) Load(ctx context.Context) error {
 
 	// Clear the current queue
 	bq.queue = make([]coresequencer.Batch, 0)
+	bq.keys = make([]string, 0)
+	bq.nextSeq = 0
+
+	type seqEntry struct {
+		seq   uint64
+		key   string
+		batch coresequencer.Batch
+	}
+	var sequenced []seqEntry
 
 	q := query.Query{}
 	results, err := bq.db.Query(ctx, q)
@@ -134,8 +143,39 @@ func (bq *BatchQueue) Load(ctx context.Context) error {
 			fmt.Printf("Error decoding batch for key '%s': %v. Skipping entry.\n", result.Key, err)
 			continue
 		}
-		bq.queue = append(bq.queue, coresequencer.Batch{Transactions: pbBatch.Txs})
+		batch := coresequencer.Batch{Transactions: pbBatch.Txs}
+		key := strings.TrimPrefix(result.Key, "/")
+		if seq, ok := parseSeqKey(key); ok {
+			sequenced = append(sequenced, seqEntry{seq: seq, key: key, batch: batch})
+			continue
+		}
+		// record written by an older version (keyed by content hash): its position is
+		// unknown, it goes in front of everything accepted since
+		bq.queue = append(bq.queue, batch)
+		bq.keys = append(bq.keys, key)
+	}
+	sort.Slice(sequenced, func(i, j int) bool { return sequenced[i].seq < sequenced[j].seq })
+	for _, e := range sequenced {
+		bq.queue = append(bq.queue, e.batch)
+		bq.keys = append(bq.keys, e.key)
+		bq.nextSeq = e.seq + 1
 	}
 
 	return nil
+}
+
+// seqKeyLen distinguishes sequence keys (16 hex digits) from the content-hash keys
+// (64 hex digits) written by older versions.
+const seqKeyLen = 16
+
+func seqKey(seq uint64) string {
+	return fmt.Sprintf("%0*x", seqKeyLen, seq)
+}
+
+func parseSeqKey(key string) (uint64, bool) {
+	if len(key) != seqKeyLen {
+		return 0, false
+	}
+	seq, err := strconv.ParseUint(key, 16, 64)
+	return seq, err == nil
 }
